@@ -239,13 +239,16 @@ class AliasValueSource(H.ValueSource):
   live nodes, hands out
 
     * an operand it already handed out for this call (the same fresh object /
-      the same live node a second time), and
+      the same live node a second time),
+    * the node that another tree of the forest stores under the very keys
+      that are being written (`t.a.b = clone_of_t.a.b`), and
     * fresh nested values in which one symbolic node occurs at two places.
   """
 
   def __init__(self, forest, target, p_same=0.3, p_inject=0.2, p_form=0.25,
-               **kw):
+               p_twin=0.15, **kw):
     super().__init__(forest, target, **kw)
+    self.p_twin = p_twin
     self.p_same, self.p_inject, self.p_form = p_same, p_inject, p_form
     self.given = []
     self.ntags = 0
@@ -261,6 +264,12 @@ class AliasValueSource(H.ValueSource):
       except Exception:  # pylint: disable=broad-except
         field = None
     typed = field is not None and not isinstance(field.value, pg.typing.Any)
+    if (not typed and node is not None and key is not None
+        and rng.random() < self.p_twin):
+      tw = self.twin(rng, node, key)
+      if tw is not None:
+        self.given.append(tw)
+        return tw
     if not typed and self.given and rng.random() < self.p_same:
       return self.share(rng.choice(self.given))
     d = super().__call__(rng, node, key)
@@ -275,6 +284,32 @@ class AliasValueSource(H.ValueSource):
     if inner(d)[0] in SYMBOLIC_KINDS or d[0] == 'node':
       self.given.append(d)
     return d
+
+  def twin(self, rng, node, key):
+    """The node stored under the same keys in ANOTHER tree of the forest (a
+    clone / a deserialized copy of the target tree is a frequent one)."""
+    try:
+      keys = list(node.sym_path.keys)
+      if isinstance(node, pg.List):
+        key = rng.randrange(len(node) + 1)
+      cands, equal = [], []
+      for ridx, root in enumerate(self.forest or []):
+        if ridx == self.target[0] or not isinstance(root, pg.Symbolic):
+          continue
+        try:
+          holder = D.resolve(self.forest, ridx, keys)
+          n = holder.sym_getattr(key)
+        except Exception:  # pylint: disable=broad-except
+          continue
+        if isinstance(n, pg.Symbolic) and not isinstance(n, pg.Ref):
+          cands.append(['node', ridx, keys + [key]])
+          if type(holder) is type(node) and pg.eq(holder, node):
+            equal.append(cands[-1])
+      if equal and rng.random() < 0.8:
+        return rng.choice(equal)
+      return rng.choice(cands) if cands else None
+    except Exception:  # pylint: disable=broad-except
+      return None
 
   def share(self, prev):
     """A description that builds to the same object as `prev` (which is
